@@ -400,7 +400,7 @@ class Dosini(object):
         Returns:
 
         """
-        platform_files = glob.glob(os.path.join(directory, 'experiment.*.conf'))
+        platform_files = glob.glob(os.path.join(glob.escape(directory), 'experiment.*.conf'))
 
         if is_instance is False:
             default_platform_path = os.path.join(directory, 'experiment.conf')
@@ -1023,13 +1023,14 @@ class Dosini(object):
     def _discover_stages(cls, directory, is_instance):
         #  type: (str, bool) -> Dict[int, str]
         stages_dir = os.path.join(directory, 'stages.d')
+        # VV: the directory is text, not a pattern: `[`, `*` and `?` may be part of its path
         if is_instance is False:
-            stage_files = sorted(glob.glob(os.path.join(stages_dir, 'stage*.conf')))
+            stage_files = sorted(glob.glob(os.path.join(glob.escape(stages_dir), 'stage*.conf')))
             # VV: Support parsing the `non-instance` configuration files from some
             #     existing package instance
             stage_files = [path for path in stage_files if path.endswith('.instance.conf') is False]
         else:
-            stage_files = sorted(glob.glob(os.path.join(stages_dir, 'stage*.instance.conf')))
+            stage_files = sorted(glob.glob(os.path.join(glob.escape(stages_dir), 'stage*.instance.conf')))
 
         stage_to_paths = {}
 
@@ -1214,7 +1215,7 @@ class Dosini(object):
         variables_files.insert(0, default_platform_path)
         variables_files = list(filter(os.path.isfile, variables_files))
 
-        platform_files = glob.glob(os.path.join(variables_dir, '*.conf'))
+        platform_files = glob.glob(os.path.join(glob.escape(variables_dir), '*.conf'))
 
         dict_variables = {}
 
@@ -1480,14 +1481,14 @@ class Dosini(object):
         if update_existing:
             # VV: Do a cleanup first
             stage_files = glob.glob(os.path.join(
-                output_dir, 'stages.d', 'stage*.conf'
+                glob.escape(output_dir), 'stages.d', 'stage*.conf'
             ))
 
             stage_files = [e for e in stage_files if e.endswith('.instance.conf') is is_instance]
 
             if is_instance is False:
                 platform_files = glob.glob(
-                    os.path.join(output_dir, 'experiment*.conf')
+                    os.path.join(glob.escape(output_dir), 'experiment*.conf')
                 )
             else:
                 platform_files = []
